@@ -38,6 +38,7 @@ type FnSpec struct {
 	Lemma      bool
 	Safe       []string // property labels under which implicit obligations are checked
 	Unroll     map[int]int
+	AtCall     map[string][]*Clause // call-site assertions: callee name -> clauses evaluated just before the call
 	Thorough   bool // checked only in the thorough tier
 	Bounded    int  // >0: bounded stand-in (lemma with callees inlined, loops unrolled to this bound)
 	PanicsIff  *Clause
@@ -66,6 +67,11 @@ func (s *FnSpec) props() map[string]bool {
 		}
 	}
 	add(s.Safe)
+	for _, cs := range s.AtCall {
+		for _, c := range cs {
+			add(c.Labels)
+		}
+	}
 	if s.PanicsIff != nil {
 		add(s.PanicsIff.Labels)
 	}
@@ -286,6 +292,17 @@ func (c *Contracts) parseFile(prog *ssa.Program, p *packages.Package, sp *ssa.Pa
 				k, _ := strconv.Atoi(fs[3])
 				if s := c.spec(sp, fs[1], pos); s != nil {
 					s.Unroll[n] = k
+				}
+			case "at-call":
+				// at-call <target> <callee> <labels>: the bound spec function must hold just before target calls callee
+				if !need(4) {
+					continue
+				}
+				if s, cl := c.spec(sp, fs[1], pos), clause(splitLabels(fs[3:])); s != nil && cl != nil {
+					if s.AtCall == nil {
+						s.AtCall = map[string][]*Clause{}
+					}
+					s.AtCall[fs[2]] = append(s.AtCall[fs[2]], cl)
 				}
 			case "thorough":
 				if !need(2) {
